@@ -800,6 +800,93 @@ claim(
     "DESIGN.md §5.1 C06",
 )
 
+claim(
+    "C18",
+    "The shared state of a dispenso::Future (FutureImplBase: status_, refCount_, the Result object in resultBuf_, "
+    "exception_, the task-set counter; the functor's invocation counter and the ghost token of the scheduled closure) is "
+    "modelled at one action per atomic operation / futex call (Model/Future.lean) in the generic interleaving "
+    "semantics (Core/Conc.lean: any number of threads, any schedule, spurious wake-ups, time-outs). Proved for every "
+    "reachable state, whoever runs the functor (closure or a waiter inline): the invocation counter is 0 or 1 and at "
+    "most one thread is ever inside run(int) (C18_functor_at_most_once); kReady implies the functor ran exactly once "
+    "and, while a reference exists, its Result / exception is in place (C18_ready_means_ran_once); a thread whose "
+    "wait()/get()/timed wait has returned ready sees kReady (C18_waiter_returns_after_ready); every get() returns the "
+    "tag of the one Result object, or rethrows iff the functor threw, and reads the live object "
+    "(C18_get_same_result, C18_get_reads_live_object); refCount_ = live handles + references in flight + pending "
+    "closure, dealloc() is entered once, by one thread, only at count 0, and after it nobody is at an operation on "
+    "the state or owns a handle (C18_refcount, C18_no_use_after_free); the task-set counter is decremented once, after "
+    "kReady (C18_taskset_counter); once kReady, nobody is parked or an unblocked thread is about to wake all (C18_no_lost_wakeup). Tie: the same exec function replays the traces (status_, refCount_, result "
+    "object, invocation counter, task-set counter; operands, observed values, declared memory orders, futex wake sets, "
+    "return values) of the real code run under the deterministic scheduler with ThreadPool / NewThreadInvoker / "
+    "ImmediateInvoker / TaskSet / ConcurrentTaskSet / a dedicated thread, 1..4 waiter threads with their own copies, "
+    "throwing and returning functors, deferred and non-deferred policy. Oracle on the implementation: invocation "
+    "count, address and value of every get() result, readiness at every return, object lifetimes.",
+    "Trusted: Lean kernel; dsched (our TSan-interface runtime) to report what the code did; sequential consistency "
+    "(declared orders are checked against the ones the argument needs, the weak-memory question — e.g. the "
+    "store(kReady)/load(thenChain_) vs push/load(status_) pattern — is C10's); the scheduled closure is invoked at most "
+    "once (ghost token: OnceFunction / pool, C39/C01); each thread uses handles it owns (the client contract of "
+    "Future is part of the protocol; two threads calling get() through the same Future object run the same code on "
+    "the shared state and are exercised by the oracle only). Not modelled: ready-made futures (make_ready_future), "
+    "spurious failure of compare_exchange_weak (a stutter step), address identity (oracle only), wrap-around of refCount_.",
+    "Lean 4 proof (inductive invariants over an interleaving semantics: weighted reference count, status protocol) + "
+    "trace validation under a deterministic scheduler",
+    "DESIGN.md §5.3 C18",
+)
+
+claim(
+    "C19",
+    "Then-chain (Model/FutChain.lean: addToThenChainOrExecute with the post-push re-check, tryExecuteThenChain, run(int), "
+    "wait() running the antecedent inline; the Treiber stack is modelled by the code of the whole list in the head cell, "
+    "enc/dec proved inverse): for every reachable state a registered continuation is dispatched at most once "
+    "(C19_dispatch_at_most_once), only when the antecedent is kReady (C19_dispatch_only_when_ready), every claimed id is "
+    "in exactly one place (C19_single_owner), an undispatched one always has a responsible thread that has not returned "
+    "(C19_undispatched_has_owner), hence exactly once after quiescence whether added before, during or after completion "
+    "(C19_dispatch_exactly_once). That the dispatched continuation future runs its functor once and only after "
+    "copy.wait() returned is C18 applied to it. when_all / when_any (Model/WhenComb.lean: shared count / winner, "
+    "result status, input statuses, continuations, whenComplete incl. the inline path): the result is ready only after "
+    "all inputs are (C19_when_all_ready_after_all_inputs, C19_when_all_count), resp. its value is the winner cell, the "
+    "index of a ready input, set once (C19_when_any_result_is_ready_input, C19_when_any_winner). Task-set variants: the "
+    "result future carries the set's counter, C18_taskset_counter. Tie: traces of status_/thenChain_/dispatch counters "
+    "(1..8 continuations from 1..3 threads racing with completion, CAS contention) and — when the tree has the "
+    "fut.when_all / fut.when_any observation hooks — of count/winner, result and input statuses are replayed through "
+    "the models. Oracle: continuations through ImmediateInvoker/ThreadPool/NewThreadInvoker/TaskSet/ConcurrentTaskSet run "
+    "once and find the antecedent ready; when_all holds the inputs in input order (identity per position), ready only "
+    "after all inputs; when_any index in range and ready; taskSet.wait() returning implies ready; empty ranges.",
+    "Trusted: as C18. The chain head's pointer values are not compared (the model has list codes): kind and success / "
+    "failure of every operation are; a successful CAS on a recycled head address is matched by fail+retry in the model. "
+    "when_all / when_any: each registered continuation is invoked at most once (ghost token; = then-chain + C18), inputs "
+    "are started futures (never run inline by the combinator), only the iterator versions are traced (tuple versions: "
+    "oracle), input order of the result container is checked by the oracle, not proved; without the hooks patch "
+    "(deliver/hooks_future_when_all_any.patch) the combinator models are tied to the code by the oracle scenarios only.",
+    "Lean 4 proof (ownership invariant of the Treiber stack, counting invariant of when_all) + trace validation under a "
+    "deterministic scheduler",
+    "DESIGN.md §5.3 C19",
+)
+
+claim(
+    "C20",
+    "CompletionEventImpl::waitFor/waitUntil (Linux futex variant) and FutureImplBase::waitFor/waitUntil are part of "
+    "Model/Future.lean; the timed layer texec adds the only assumption about time — a timed FUTEX_WAIT returns ETIMEDOUT "
+    "only after its relative timespec elapsed (deadline = clock at the wait + timespec; the clock is a memory cell "
+    "advanced by non-negative ticks). Proved for every state reachable in the timed semantics (any interleaving, "
+    "spurious wake-ups, notify racing the expiry): a thread that returned `timeout` finds the clock at least at "
+    "call-time + rel (wait_for / waitFor) resp. at abs (wait_until / waitUntil) (C20_future_timeout_after_deadline, "
+    "C20_event_timeout_after_deadline, C20_bound_of_wait_for, C20_bound_of_wait_until); `ready` / `true` is returned only "
+    "with the status completed (C20_future_ready_means_done, C20_event_ready_means_completed); a Future timed wait is "
+    "never at the CAS or inside run(int) unless allowInline_ (deferred policy) is set "
+    "(C20_timed_wait_runs_functor_only_if_deferred). Tie: traces under the deterministic scheduler with virtual time; the "
+    "acceptor keeps the model clock from the harness's clock notes, accepts a futex timeout only when the model "
+    "deadline has passed and rejects a return whose clock is behind the model clock; timeouts zero, negative, ns..s, "
+    "late / missing notify, EINTR; native real-clock waits. Oracle: elapsed virtual / real time >= requested at every "
+    "timeout, readiness at every `ready`, functor not run by a timed wait unless deferred.",
+    "Trusted: as C18; the futex contract above. The double -> timespec conversion of the requested duration is outside the "
+    "model: the acceptor and the oracle accept the timespec the code passes if it equals the request or is 1 ns short "
+    "(observed for ~4% of the requests; unobservable with a real clock, a strict reading of the property would ask for "
+    "rounding up). reset() of a CompletionEvent racing with waiters is outside the class contract and the model.",
+    "Lean 4 proof (timed interleaving semantics, deadline invariant; thread-local invariant for the policy rule) + trace "
+    "validation under a deterministic scheduler with virtual time",
+    "DESIGN.md §5.3 C20",
+)
+
 ALL = ["C%02d" % i for i in range(1, 49)]
 for _p in ALL:
     if _p not in CLAIMED:
